@@ -4,6 +4,8 @@
 -/
 import PV.Model.Bytes
 import PV.Proofs.BytesLemmas
+import PV.Proofs.C17Lemmas
+import PV.Proofs.SortLemmas
 
 namespace PV
 open PV.Bytes
@@ -30,6 +32,145 @@ theorem c17_decode_encode_chunks (P : Nat) (rs : List Rec) (h : RecsOK P rs) (fu
   rw [List.append_nil] at this
   rw [this, readChunks_nil]
   simp
+
+
+/-! ### configuration bookkeeping shared by the readers -/
+
+/-- **C17 (selection keeps numbers attached to their configurations).** -/
+theorem c17_select_aligned {β : Type} (cl : List Int) (data : List β) (rstart rstop : Option Int) (rstep : Nat)
+    (a : List Int) (b : List β) (h : select cl data rstart rstop rstep = some (a, b)) :
+    (a.zip b).Sublist (cl.zip data) := by
+  unfold select at h
+  split at h
+  · rename_i i0 i1 _ _
+    simp only [Option.some.injEq, Prod.mk.injEq] at h
+    obtain ⟨rfl, rfl⟩ := h
+    rw [← pick_zip]
+    exact pick_sublist _ _ _ _
+  · cases h
+
+/-- **C17 (the requested range and stride).** -/
+theorem c17_pick_entry {β : Type} (i0 i1 step : Nat) (l : List β) (j : Nat) :
+    (pick i0 i1 step l)[j]? = if i0 + j * (max step 1) ≤ i1 then l[i0 + j * (max step 1)]? else none := by
+  unfold pick
+  rw [everyNth_getElem? (max step 1) (by omega)]
+  have : toNext (max step 1) 0 = 0 := by simp [toNext]
+  rw [this, List.getElem?_drop, List.getElem?_take]
+  simp only [Nat.zero_add]
+  split <;> split <;> first | rfl | omega
+
+/-- **C17 (renumbering).**  For stored trajectory numbers `s, s+d, s+2d, …` (at least two, `d > 0`) the k-th
+    record is attached to configuration `q + k` with `q = s // d`, or `1 + k` when thermalisation is assumed
+    and `q > 1`: consecutive numbers, in file order, with the documented offset. -/
+theorem c17_renumber_equispaced (s d : Int) (n : Nat) (hn : 2 ≤ n) (hd : 0 < d) (thermal : Bool) :
+    renumber ((List.range n).map (fun (k : Nat) => s + (k : Int) * d)) thermal
+      = some ((List.range n).map (fun (k : Nat) =>
+          (if thermal && decide (Int.fdiv s d > 1) then 1 else Int.fdiv s d) + (k : Int))) := by
+  obtain ⟨m, rfl⟩ : ∃ m, n = m + 2 := ⟨n - 2, by omega⟩
+  unfold renumber
+  have hrev : ((List.range (m + 2)).map (fun (k : Nat) => s + (k : Int) * d)).reverse
+      = (s + ((m + 1 : Nat) : Int) * d) :: (s + ((m : Nat) : Int) * d) :: ((List.range m).map (fun (k : Nat) => s + (k : Int) * d)).reverse := by
+    rw [List.range_succ, List.range_succ]
+    simp [List.map_append, List.reverse_append]
+  rw [hrev]
+  have hdiff : (s + ((m + 1 : Nat) : Int) * d) - (s + ((m : Nat) : Int) * d) = d := by push_cast; ring
+  simp only [hdiff]
+  have hne : (d == 0) = false := by simp; omega
+  simp only [hne, Bool.false_eq_true, if_false]
+  have hmap : ((List.range (m + 2)).map (fun (k : Nat) => s + (k : Int) * d)).map (fun c => Int.fdiv c d)
+      = (List.range (m + 2)).map (fun (k : Nat) => Int.fdiv s d + (k : Int)) := by
+    simp only [List.map_map]
+    apply List.map_congr_left
+    intro k _
+    simp only [Function.comp]
+    exact fdiv_add_mul s d k hd
+  rw [hmap]
+  have hhead : (List.range (m + 2)).map (fun (k : Nat) => Int.fdiv s d + (k : Int))
+      = (Int.fdiv s d + 0) :: (List.range' 1 (m + 1)).map (fun (k : Nat) => Int.fdiv s d + (k : Int)) := by
+    rw [List.range_eq_range', List.range'_succ]; simp
+  rw [hhead]
+  simp only
+  rw [← hhead]
+  by_cases hth : (thermal && decide (Int.fdiv s d > 1)) = true
+  · have h1 : thermal = true := by simp at hth; exact hth.1
+    have h2 : Int.fdiv s d > 1 := by simp at hth; exact hth.2
+    have : (thermal && decide (Int.fdiv s d + 0 > 1)) = true := by simp [h1, h2]
+    rw [if_pos this]
+    simp only [hth, if_true, List.map_map]
+    congr 1
+    apply List.map_congr_left
+    intro k _
+    simp; ring
+  · have : ¬ ((thermal && decide (Int.fdiv s d + 0 > 1)) = true) := by simpa using hth
+    rw [if_neg this]
+    simp only [hth]
+    simp
+
+/-! ### `sort_names` -/
+
+open PV.Names PV.SortL in
+/-- **C17 (`sort_names` only re-orders).** -/
+theorem c17_sort_names_perm (ll r : List String) (h : sortNames ll = .ok r) : r.Perm ll := by
+  have hs1 : ∀ l : List String, (stage1 l).Perm l := by
+    intro l; unfold stage1; split
+    · exact sortByKey_perm _ _
+    · exact List.Perm.refl _
+  have hs2 : ∀ l : List String, (stage2 l).Perm l := by
+    intro l; unfold stage2; split
+    · exact sortByKey_perm _ _
+    · exact List.Perm.refl _
+  unfold sortNames at h
+  split at h
+  · cases h; exact List.Perm.refl _
+  · split at h
+    · cases h; exact (hs2 _).trans (hs1 _)
+    · unfold fallback at h
+      split at h
+      · cases h; exact List.Perm.refl _
+      · split at h
+        · cases h
+        · split at h
+          · cases h
+          · cases h; exact sortByKey_perm _ _
+
+open PV.Names PV.SortL in
+/-- **C17 (`sort_names` orders by replica number, then by id, numerically).**  When every name carries
+    both numbers the result is in lexicographic order of (number after `r`, number after `id`) as
+    integers - `r2` before `r10`. -/
+theorem c17_sort_names_lex (ll : List String) (hlen : 1 < ll.length)
+    (hid : ∀ s ∈ ll, (idKey s).isSome = true) (hr : ∀ s ∈ ll, (rKey s).isSome = true) :
+    ∃ r, sortNames ll = .ok r ∧
+      r.Pairwise (Lex (fun s => (rKey s).getD 0) (fun s => (idKey s).getD 0)) := by
+  have h1 : ¬ ll.length ≤ 1 := by omega
+  have hidb : (ll.all fun s => (idKey s).isSome) = true := List.all_eq_true.mpr hid
+  have hs1 : stage1 ll = sortByKey (fun s => (idKey s).getD 0) ll := by simp [stage1, hidb]
+  have hrb : ((stage1 ll).all fun s => (rKey s).isSome) = true := by
+    rw [hs1]
+    exact List.all_eq_true.mpr (fun s hs => hr s ((sortByKey_perm _ ll).subset hs))
+  have hs2 : stage2 (stage1 ll) = sortByKey (fun s => (rKey s).getD 0) (stage1 ll) := by simp [stage2, hrb]
+  refine ⟨stage2 (stage1 ll), ?_, ?_⟩
+  · unfold sortNames
+    simp [h1, hidb]
+  · rw [hs2, hs1]
+    exact sortByKey_lex _ _ _ (sortByKey_sorted (fun s => (idKey s).getD 0) ll)
+
+open PV.Names PV.SortL in
+/-- **C17 (`sort_names` does not depend on the directory order).**  If the (r, id) pairs of the names are
+    pairwise distinct, any two listings of the same names are sorted to the same list. -/
+theorem c17_sort_names_invariant (ll ll' : List String) (hp : ll'.Perm ll) (hlen : 1 < ll.length)
+    (hid : ∀ s ∈ ll, (idKey s).isSome = true) (hr : ∀ s ∈ ll, (rKey s).isSome = true)
+    (hinj : ∀ x ∈ ll, ∀ y ∈ ll, (rKey x).getD 0 = (rKey y).getD 0 → (idKey x).getD 0 = (idKey y).getD 0 → x = y) :
+    sortNames ll' = sortNames ll := by
+  obtain ⟨r, hr1, hr2⟩ := c17_sort_names_lex ll hlen hid hr
+  obtain ⟨r', hr1', hr2'⟩ := c17_sort_names_lex ll' (by rw [hp.length_eq]; exact hlen)
+    (fun s hs => hid s (hp.subset hs)) (fun s hs => hr s (hp.subset hs))
+  rw [hr1, hr1']
+  congr 1
+  have hperm : r'.Perm r :=
+    (c17_sort_names_perm ll' r' hr1').trans (hp.trans (c17_sort_names_perm ll r hr1).symm)
+  exact eq_of_perm_of_lex _ _ r' r hperm hr2' hr2
+    (fun x hx y hy => hinj x ((c17_sort_names_perm ll' r' hr1').trans hp |>.subset hx)
+      y ((c17_sort_names_perm ll' r' hr1').trans hp |>.subset hy))
 
 
 end PV
